@@ -184,6 +184,7 @@ Theorem C12_detection_lists_spec : forall (cfg : sensing_config) (gts : list gt_
      r_obj r = i /\
      r_inside r = box_crop_idx (g_box g) (bbox_scale (g_dist g) (c_s0 cfg) (c_s100 cfg)) true cloud /\
      r_num r = length (r_inside r) /\
+     r_num r = inside_num (g_box g) (bbox_scale (g_dist g) (c_s0 cfg) (c_s100 cfg)) cloud /\
      (r_detected r = true <-> (c_min_points cfg <= Z.of_nat (r_num r))%Z) /\
      (r_occluded r = true <-> g_vis g = Some V_NONE)).
 Proof.
